@@ -50,26 +50,29 @@ PORT_DENOTATION_ATTRS = {"ports", "_ports", "sport", "_sport"}
 # ------------------------------------------------------------------ derived facts
 def packet_fields(ctx: Ctx) -> List[str]:
     """Attributes whose text the extended branch of Ace.line getter joins, minus the sequence prefix."""
+    from .common import rendered_fields
+
     g = ctx.func("Ace.line.getter")
     best: List[str] = []
-    for n in own_nodes(g.node):
-        if isinstance(n, (ast.List, ast.Tuple)) and len(n.elts) >= 3:
-            fields = []
-            for e in n.elts:
-                for c in chains_in(e):
-                    if c[0] == "self" and len(c) >= 2 and not c[1].endswith("()"):
-                        fields.append(norm_field(g.cls, c[1]))
-                        break
-            if len(fields) > len(best):
-                best = fields
+    for seq in rendered_fields(ctx, g):
+        fields = [norm_field(g.cls, a) for a in seq if not a.endswith("()")]
+        if len(fields) > len(best):
+            best = fields
     if len(best) < 5:
         raise AnalysisError("Ace.line getter: cannot recover the list of rendered fields")
     return best
 
 
+def shadow_of_func(ctx: Ctx) -> Func:
+    """Ace.shadow_of after the behaviour-preserving rewrites of rules/normalise.py (ladder of early returns)."""
+    from .normalise import normalised
+
+    return normalised(ctx, ctx.func("Ace.shadow_of"))
+
+
 def helper_for_field(ctx: Ctx, rep: Report, field: str) -> Optional[Func]:
     """The `_shadow_of__*` helper called from shadow_of that reads `field` of both sides."""
-    so = ctx.func("Ace.shadow_of")
+    so = shadow_of_func(ctx)
     other = so.params[1]
     for n in own_nodes(so.node):
         if isinstance(n, ast.Call) and isinstance(n.func, ast.Attribute):
@@ -80,14 +83,16 @@ def helper_for_field(ctx: Ctx, rep: Report, field: str) -> Optional[Func]:
                     continue
                 fr = expr_fields(ctx, so, n, {"self": "self", other: "other"})
                 if field in fr.get("self", set()) and field in fr.get("other", set()):
-                    return m
+                    from .normalise import normalised
+
+                    return normalised(ctx, m)
     return None
 
 
 # ------------------------------------------------------------------ R03.1
 def r03_1(ctx: Ctx, rep: Report, rid: str = "R03.1") -> List[str]:
     rep.rule(rid)
-    so = ctx.func("Ace.shadow_of")
+    so = shadow_of_func(ctx)
     rep.require(len(so.params) >= 2, "Ace.shadow_of lost its `other` parameter")
     other = so.params[1]
     cfg = ctx.cfg(so)
@@ -217,7 +222,7 @@ def skip_structure(ctx: Ctx, f: Func, rep: Report, qual: str) -> None:
 
 def r03_2(ctx: Ctx, rep: Report, helpers: Dict[str, Optional[Func]], rid: str = "R03.2") -> None:
     rep.rule(rid)
-    so = ctx.func("Ace.shadow_of")
+    so = shadow_of_func(ctx)
     for fld in ("_srcaddr", "_dstaddr"):
         h = helpers.get(fld)
         if h is None:
@@ -263,8 +268,10 @@ def r03_3(ctx: Ctx, rep: Report, pairs=SIBLINGS[:2], rid: str = "R03.3") -> None
             rep.note(f"R03.3 sibling pair {a} / {b} not present as two functions (merged?)")
             continue
         rep.instance()
-        na = normalised_body(fa.node, {"src": "dst"})
-        nb = normalised_body(fb.node, None)
+        from .normalise import normalised
+
+        na = normalised_body(normalised(ctx, fa).node, {"src": "dst"})
+        nb = normalised_body(normalised(ctx, fb).node, None)
         if na == nb:
             rep.ok(f"{a} ≡ {b}", "identical modulo src↔dst renaming, temporaries and local names", where=where(fa))
         else:
@@ -411,14 +418,12 @@ def r03_5(ctx: Ctx, rep: Report, h: Optional[Func]) -> None:
 def check_subnet_of_shape(ctx: Ctx, rep: Report, f: Func, tops: str, bottoms: str, need_empty_guard: bool = True) -> None:
     cfg = ctx.cfg(f)
     paths = [p for p in function_paths(cfg) if not p.raises]
-    # all(any(b.subnet_of(t) for t in tops) for b in bottoms)
-    for p in paths:
-        r = p.ret
-        if isinstance(r, ast.Call) and isinstance(r.func, ast.Name) and r.func.id == "all":
-            rep.note(f"R03.6 {f.qualname}: all(any(...)) idiom present; loop-nest rule not applied to it")
     fors = [n for n in cfg.live if n.kind == "for"]
     outer = [n for n in fors if src(n.ast.iter) == bottoms]
     inner = [n for n in fors if src(n.ast.iter) == tops]
+    if not outer and not inner and _all_any_form(ctx, rep, f, paths, tops, bottoms):
+        _empty_guards(rep, f, paths, tops, bottoms, need_empty_guard)
+        return
     if not outer or not inner:
         rep.violation(f.qualname, "loop nest", f"expected `for b in {bottoms}` enclosing `for t in {tops}` (∀ bottom ∃ top)", where(f))
         return
@@ -454,6 +459,79 @@ def check_subnet_of_shape(ctx: Ctx, rep: Report, f: Func, tops: str, bottoms: st
             rep.violation(f.qualname, snippet(r.ast), "a truthy return is reachable before every bottom network was examined", where(f, r.ast))
         else:
             rep.ok(f"{f.qualname}: {snippet(r.ast)}", "only after the outer loop is exhausted", where=where(f, r.ast))
+    _empty_guards(rep, f, paths, tops, bottoms, need_empty_guard)
+
+
+def _all_any_form(ctx: Ctx, rep: Report, f: Func, paths, tops: str, bottoms: str) -> bool:
+    """`all(any(b.subnet_of(t) for t in tops) for b in bottoms)` (the inner test possibly behind a one-expression
+    local function): the same ∀ bottom ∃ top statement as the loop nest.  True when this form was recognised
+    (verdicts are emitted here)."""
+    from .common import _SubstMany, _strip_doc, clone
+
+    cands = []
+    for p in paths:
+        r = deep_resolve(p.ret, p.env) if p.ret is not None else None
+        while isinstance(r, ast.Call) and isinstance(r.func, ast.Name) and r.func.id == "bool" and len(r.args) == 1:
+            r = r.args[0]
+        if isinstance(r, ast.Call) and isinstance(r.func, ast.Name) and r.func.id in ("all", "any") and len(r.args) == 1 and isinstance(r.args[0], (ast.GeneratorExp, ast.ListComp)):
+            cands.append(r)
+    if not cands:
+        return False
+    for r in cands:
+        g = r.args[0]
+        if r.func.id != "all" or len(g.generators) != 1:
+            rep.violation(f.qualname, snippet(r), "the cover test must be ∀ bottom ∃ top: all(any(b.subnet_of(t) for t in tops) for b in bottoms)", where(f, r))
+            continue
+        og = g.generators[0]
+        inner = g.elt
+        if isinstance(inner, ast.Call) and isinstance(inner.func, ast.Name) and inner.func.id not in ("any", "all"):
+            # one-expression local function / lambda bound to a local name
+            body = None
+            for h in ctx.prog.funcs:
+                if h.parent is f and h.name == inner.func.id:
+                    b = _strip_doc(list(h.node.body))
+                    if len(b) == 1 and isinstance(b[0], ast.Return) and b[0].value is not None and len(h.params) == len(inner.args) and not inner.keywords:
+                        body = _SubstMany(dict(zip(h.params, inner.args))).visit(clone(b[0].value))
+            if body is None:
+                for n in own_nodes(f.node):
+                    if isinstance(n, ast.Assign) and isinstance(n.targets[0], ast.Name) and n.targets[0].id == inner.func.id and isinstance(n.value, ast.Lambda):
+                        ps = [a.arg for a in n.value.args.args]
+                        if len(ps) == len(inner.args) and not inner.keywords:
+                            body = _SubstMany(dict(zip(ps, inner.args))).visit(clone(n.value.body))
+            if body is not None:
+                inner = body
+        ok_outer = src(og.iter) == bottoms and not og.ifs and isinstance(og.target, ast.Name)
+        ok_inner = isinstance(inner, ast.Call) and isinstance(inner.func, ast.Name) and inner.func.id == "any" and len(inner.args) == 1 and isinstance(inner.args[0], (ast.GeneratorExp, ast.ListComp)) and len(inner.args[0].generators) == 1
+        if not ok_outer or not ok_inner:
+            if src(og.iter) == tops:
+                rep.violation(f.qualname, snippet(r), "quantifiers run over the wrong lists: every *top* is required to satisfy the inner test (must be ∀ bottom ∃ top)", where(f, r))
+            else:
+                rep.violation(f.qualname, snippet(r), f"the cover test must be all(any(b.subnet_of(t) for t in {tops}) for b in {bottoms}) without filters", where(f, r))
+            continue
+        ig = inner.args[0].generators[0]
+        test = inner.args[0].elt
+        bvar = og.target.id
+        tvar = src(ig.target)
+        if src(ig.iter) != tops or ig.ifs:
+            rep.violation(f.qualname, snippet(inner), f"the inner quantifier must run over every element of `{tops}`", where(f, r))
+            continue
+        if isinstance(test, ast.Call) and isinstance(test.func, ast.Attribute) and test.func.attr == "subnet_of" and len(test.args) == 1:
+            recv, arg = src(test.func.value), src(test.args[0])
+            if recv == bvar and arg == tvar:
+                rep.ok(f"{f.qualname}: {snippet(test)}", "receiver is the bottom element, argument the top element", where=where(f, r))
+                rep.ok(f"{f.qualname}: ∀ bottom ∃ top", f"all(... for {bvar} in {bottoms}) of any(... for {tvar} in {tops}): no bottom is passed over, True only when every bottom has a containing top", where=where(f, r))
+                continue
+            if recv == tvar and arg == bvar:
+                rep.violation(f.qualname, snippet(test), "direction reversed: tests whether the *top* network lies inside the *bottom* network", where(f, r), inp="every /32 would cover its /8")
+                continue
+        if isinstance(test, ast.Call) and isinstance(test.func, ast.Attribute) and test.func.attr == "supernet_of" and len(test.args) == 1 and src(test.func.value) == tvar and src(test.args[0]) == bvar:
+            rep.ok(f"{f.qualname}: {snippet(test)}", "top.supernet_of(bottom) == bottom.subnet_of(top)", where=where(f, r))
+            continue
+        rep.violation(f.qualname, snippet(test), f"the inner test is not `{bvar}.subnet_of({tvar})`", where(f, r))
+    return True
+
+
+def _empty_guards(rep: Report, f: Func, paths, tops: str, bottoms: str, need_empty_guard: bool) -> None:
     # (d) empty covers nothing / nothing covers empty
     if need_empty_guard:
         for nm in (tops, bottoms):
